@@ -37,7 +37,8 @@ Verdict(e) ==
                     THEN "rawinput.empty_text_yields_one_empty_line"
                ELSE IF e.exit # r.exit THEN "exit." \o tag \o ".req" \o ToString(r.exit) \o ".got" \o ToString(e.exit)
                ELSE IF e.stdout # r.out THEN "out." \o tag
-               ELSE IF IndepApplies(cfg) /\ Len(e.fidx) > 0 /\ Len(e.solo) = Len(e.fidx)
+               ELSE IF IndepApplies(cfg) /\ Len(e.fidx) > 0 /\ Len(e.solo) # Len(e.fidx) THEN "NOSOLO"
+               ELSE IF IndepApplies(cfg) /\ Len(e.fidx) > 0
                        /\ e.stdout # CatStr([k \in 1 .. Len(gi) |-> e.solo[gi[k]].stdout])
                     THEN \* the known empty-text defect shows in the SOLO run of an empty file under --raw-input
                          IF cfg.mode = "raw" /\ e.stdout = CatStr([k \in 1 .. Len(gi) |->
@@ -55,7 +56,7 @@ TNext == /\ l <= Len(Trace)
          /\ LET e == Trace[l]
                 v == Verdict(e)
             IN /\ IF v = "" THEN TRUE
-                  ELSE IF v \in {"UNJUDGED", "BADTAG"} THEN PrintT(<<v, l>>)
+                  ELSE IF v \in {"UNJUDGED", "BADTAG", "NOSOLO"} THEN PrintT(<<v, l>>)
                   ELSE PrintT(<<"REJECT", l, v>>)
                /\ IF Drift(e) THEN PrintT(<<"DRIFT", l>>) ELSE TRUE
          /\ l' = l + 1
